@@ -355,6 +355,7 @@ package main
 //@   ensures ret0 && ret1 == nil ==> state.totpLocalRateLimit[username].failCount == 0                     #C14.totp-reset-on-success @C14
 //@   ensures !ret0 && ret1 == nil && state.totpLocalRateLimit[username].failCount != old(state.totpLocalRateLimit[username].failCount) && state.totpLocalRateLimit[username].failCount % 5 == 0 ==> timeNanos(state.totpLocalRateLimit[username].lockoutExpirationTime) >= nowNanos() + 3600000000000  #C14.totp-lockout-escalates @C14
 //@   ensures !ret0 && ret1 == nil && old(state.totpLocalRateLimit[username].failCount) < 4000000000 && timeNanos(old(state.totpLocalRateLimit[username].lastCheckTime)) + 2000000000 <= nowNanos() && timeNanos(old(state.totpLocalRateLimit[username].lockoutExpirationTime)) <= nowNanos() && ghostProfile.LastSuccessfullTOTPCounter != totpPeriodOf(t) ==> state.totpLocalRateLimit[username].failCount >= 1  #C14.totp-failure-counted @C14
+//@   ensures !ret0 && ret1 == nil && old(state.totpLocalRateLimit[username].failCount) < 4000000000 && timeNanos(old(state.totpLocalRateLimit[username].lastCheckTime)) + 2000000000 <= nowNanos() && timeNanos(old(state.totpLocalRateLimit[username].lockoutExpirationTime)) <= nowNanos() && ghostProfile.LastSuccessfullTOTPCounter != totpPeriodOf(t) && timeNanos(old(state.totpLocalRateLimit[username].lastFailTime)) + 86400000000000 >= nowNanos() ==> state.totpLocalRateLimit[username].failCount == old(state.totpLocalRateLimit[username].failCount) + 1  #C14.totp-failures-accumulate-within-a-day @C14
 
 //@ func (*RuntimeState).VIPAuthHandler
 //@   atcall vip.Client).ValidateUserOTP sets ghostVerifiedBits int (c *vip.Client, userID string, otp int, ok bool, err error) :: ghostVerifiedBits | AuthTypeSymantecVIP if ok && err == nil && userID == ghostAuthUser
